@@ -102,7 +102,20 @@ func (c *Connector) handleIncomingFragment(frag Fragment) (err error) {
 	}()
 
 	if frag.FailBit() {
-		c.failTransmission <- frag.TransmissionID()
+		// Failure reports are broadcasted; most of them are about other nodes' transmissions. Only a running Send
+		// reads this channel. The reader must never block here: if the channel is full, its oldest report is dropped.
+		select {
+		case c.failTransmission <- frag.TransmissionID():
+		default:
+			select {
+			case <-c.failTransmission:
+			default:
+			}
+			select {
+			case c.failTransmission <- frag.TransmissionID():
+			default:
+			}
+		}
 		return
 	}
 
